@@ -117,6 +117,11 @@ def _no_observers_branch(P):
 def self_recursive(f):
     """f calls itself, directly or from a closure written inside it (a visitor handed to a traversal helper)"""
     if any(n.k == 'call' and strip_targs(n.calleeq or '') == f.gname for n in f.nodes()): return True
+    # ... or through a member helper of the same class that it hands the descent to (notify -> notifyChildren -> notify)
+    cls_ = f.d.get('class')
+    helpers = {strip_targs(n.calleeq or '') for n in f.nodes() if n.k == 'call' and n.callee_in_root and strip_targs(n.calleeq or '').startswith((cls_ or '?') + '::')}
+    for g in f.tu.functions:
+        if g.gname in helpers and g is not f and any(n.k == 'call' and strip_targs(n.calleeq or '') == f.gname for n in g.nodes()): return True
     for lam in [n for n in f.nodes() if n.k == 'lambda']:
         loc = lam.d.get('fnloc')
         lf = next((g for g in f.tu.functions if g.loc == loc and g.d.get('lambda')), None)
@@ -140,7 +145,15 @@ class RouterAnalysis:
             pack = f.d.get('targs', ['<?>'])[0]
             short = f.name.replace('std::basic_string<char>', 'std::string')[:90]
             want_subject = 'tulz::Subject' + pack
-            for n in f.nodes():
+            # notify<A…> together with the member helpers it hands part of its work to (a leaf helper, a fan-out helper)
+            scope = [f]
+            for _ in range(2):
+                for g in list(scope):
+                    for n in g.nodes():
+                        if n.k == 'call' and n.callee_in_root and strip_targs(n.calleeq or '').startswith(NODE + '::') and strip_targs(n.calleeq or '') != f'{NODE}::notify':
+                            for t in self.facts.resolve(n):
+                                if t not in scope and t.d.get('class') == NODE: scope.append(t)
+            for n in [x for g in scope for x in g.nodes()]:
                 if n.k == 'call' and strip_targs(n.calleeq or '') == f'{NODE}::notify':
                     same = n.callee == f.name
                     self.add('RT.1', same, f'{short}: recursive call keeps the argument signature', n.shortloc(),
